@@ -991,6 +991,174 @@ def encContract (P : Params) : EncContract (encoder P) decode where
             have hm := encM_pos (P := P) (s := s) (inp := inp) (fl := fl) hr (by omega)
             simp; omega
 
+/-! ### the toy decoder -/
+
+/-- the rest of a member as seen from a parser state -/
+def decodeFrom : Bool → Bytes → Option Bytes
+  | false, w => decode w
+  | true, [] => none
+  | true, b :: r => (decode r).map (b :: ·)
+
+theorem decode_cons_cons (m b : UInt8) (r : Bytes) :
+    decode (m :: b :: r) = if m = 1 then (decode r).map (b :: ·) else none := by
+  rw [decode]
+
+theorem decodeFrom_false_cons (h : UInt8) (t : Bytes) (y : Bytes) (hd : decodeFrom false (h :: t) = some y) :
+    (h = 0 ∧ t = [] ∧ y = []) ∨ (h = 1 ∧ decodeFrom true t = some y) := by
+  simp only [decodeFrom] at hd
+  cases t with
+  | nil =>
+    simp only [decode] at hd
+    split at hd
+    · left; cases hd; exact ⟨by assumption, rfl, rfl⟩
+    · cases hd
+  | cons b r =>
+    rw [decode_cons_cons] at hd
+    split at hd
+    · right; exact ⟨by assumption, by simpa [decodeFrom] using hd⟩
+    · cases hd
+
+theorem decodeFrom_true_cons (b : UInt8) (t : Bytes) (y : Bytes) (hd : decodeFrom true (b :: t) = some y) :
+    ∃ y', y = b :: y' ∧ decodeFrom false t = some y' := by
+  simp only [decodeFrom, Option.map_eq_some_iff] at hd
+  obtain ⟨y', h1, h2⟩ := hd
+  exact ⟨y', h2.symm, h1⟩
+
+theorem parse_nil (i : Bool) : parse i [] = (0, [], i, false, false) := by cases i <;> rfl
+
+theorem parse_true_cons (b : UInt8) (r : Bytes) :
+    parse true (b :: r) = ((parse false r).1 + 1, b :: (parse false r).2.1, (parse false r).2.2.1,
+      (parse false r).2.2.2.1, (parse false r).2.2.2.2) := by
+  rw [parse]
+
+theorem parse_false_cons (m : UInt8) (r : Bytes) :
+    parse false (m :: r) =
+      if m = 0 then (1, [], false, true, false)
+      else if m = 1 then ((parse true r).1 + 1, (parse true r).2.1, (parse true r).2.2.1, (parse true r).2.2.2.1, (parse true r).2.2.2.2)
+      else (0, [], false, false, true) := by
+  rw [parse]
+
+/-- a complete rest of a member is parsed to its end -/
+theorem parse_whole : ∀ (w : Bytes) (i : Bool) (y : Bytes), decodeFrom i w = some y →
+    parse i w = (w.length, y, false, true, false) := by
+  intro w
+  induction w with
+  | nil => intro i y h; cases i <;> simp [decodeFrom, decode] at h
+  | cons h t ih =>
+    intro i y hd
+    cases i with
+    | true =>
+      obtain ⟨y', rfl, hd'⟩ := decodeFrom_true_cons h t y hd
+      rw [parse_true_cons, ih false y' hd']
+      rfl
+    | false =>
+      rcases decodeFrom_false_cons h t y hd with ⟨rfl, rfl, rfl⟩ | ⟨rfl, hd'⟩
+      · rw [parse_false_cons]; simp
+      · rw [parse_false_cons, ih true y hd']; simp
+
+/-- a proper prefix of the rest of a member is parsed completely, without reaching the end -/
+theorem parse_prefix : ∀ (w : Bytes) (i : Bool) (y : Bytes) (k : Nat), decodeFrom i w = some y → k < w.length →
+    ∃ d i', parse i (w.take k) = (k, d, i', false, false) ∧ IsPre d y := by
+  intro w
+  induction w with
+  | nil => intro i y k _ hk; simp at hk
+  | cons h t ih =>
+    intro i y k hd hk
+    cases k with
+    | zero => exact ⟨[], i, by simp [parse_nil], IsPre.nil _⟩
+    | succ k =>
+      have hk' : k < t.length := by simpa using hk
+      cases i with
+      | true =>
+        obtain ⟨y', rfl, hd'⟩ := decodeFrom_true_cons h t y hd
+        obtain ⟨d, i', hp, hpre⟩ := ih false y' k hd' hk'
+        refine ⟨h :: d, i', by rw [List.take_succ_cons, parse_true_cons, hp], ?_⟩
+        obtain ⟨z, rfl⟩ := hpre
+        exact ⟨z, rfl⟩
+      | false =>
+        rcases decodeFrom_false_cons h t y hd with ⟨rfl, rfl, rfl⟩ | ⟨rfl, hd'⟩
+        · simp at hk'
+        · obtain ⟨d, i', hp, hpre⟩ := ih true y k hd' hk'
+          exact ⟨d, i', by rw [List.take_succ_cons, parse_false_cons, hp]; simp, hpre⟩
+
+/-- once the terminator has been parsed, nothing more is looked at -/
+theorem parse_done_append : ∀ (a : Bytes) (i : Bool) (d : Bytes) (i' : Bool) (b : Bytes),
+    parse i a = (a.length, d, i', true, false) → parse i (a ++ b) = (a.length, d, i', true, false) := by
+  intro a
+  induction a with
+  | nil => intro i d i' b h; rw [parse_nil] at h; cases h
+  | cons h t ih =>
+    intro i d i' b hp
+    cases i with
+    | true =>
+      rcases hpt : parse false t with ⟨c, d0, i0, dn0, bd0⟩
+      rw [parse_true_cons, hpt] at hp
+      simp only [Prod.mk.injEq, List.length_cons, Nat.add_right_cancel_iff] at hp
+      obtain ⟨rfl, rfl, rfl, rfl, rfl⟩ := hp
+      rw [List.cons_append, parse_true_cons, ih false d0 i0 b hpt]
+      rfl
+    | false =>
+      rw [parse_false_cons] at hp
+      rw [List.cons_append, parse_false_cons]
+      by_cases h0 : h = 0
+      · rw [if_pos h0] at hp ⊢
+        simp only [Prod.mk.injEq, List.length_cons] at hp
+        obtain ⟨hl, rfl, rfl, _, _⟩ := hp
+        have : t.length = 0 := by omega
+        simp [this]
+      · rw [if_neg h0] at hp ⊢
+        by_cases h1 : h = 1
+        · rw [if_pos h1] at hp ⊢
+          rcases hpt : parse true t with ⟨c, d0, i0, dn0, bd0⟩
+          rw [hpt] at hp
+          simp only [Prod.mk.injEq, List.length_cons, Nat.add_right_cancel_iff] at hp
+          obtain ⟨rfl, rfl, rfl, rfl, rfl⟩ := hp
+          rw [ih true d0 i0 b hpt]
+          rfl
+        · rw [if_neg h1] at hp; simp at hp
+
+/-- parsing continues where a not yet finished parse stopped -/
+theorem parse_append : ∀ (a : Bytes) (i : Bool) (d : Bytes) (i' : Bool) (b : Bytes),
+    parse i a = (a.length, d, i', false, false) →
+    parse i (a ++ b) = (a.length + (parse i' b).1, d ++ (parse i' b).2.1, (parse i' b).2.2.1,
+      (parse i' b).2.2.2.1, (parse i' b).2.2.2.2) := by
+  intro a
+  induction a with
+  | nil =>
+    intro i d i' b h
+    rw [parse_nil] at h
+    simp only [Prod.mk.injEq] at h
+    obtain ⟨_, h2, h3, _⟩ := h
+    subst h2 h3
+    simp
+  | cons h t ih =>
+    intro i d i' b hp
+    cases i with
+    | true =>
+      rcases hpt : parse false t with ⟨c, d0, i0, dn0, bd0⟩
+      rw [parse_true_cons, hpt] at hp
+      simp only [Prod.mk.injEq, List.length_cons, Nat.add_right_cancel_iff] at hp
+      obtain ⟨rfl, rfl, rfl, rfl, rfl⟩ := hp
+      rw [List.cons_append, parse_true_cons, ih false d0 i0 b hpt]
+      simp only [List.length_cons, List.cons_append, Prod.mk.injEq, and_true, true_and]
+      omega
+    | false =>
+      rw [parse_false_cons] at hp
+      rw [List.cons_append, parse_false_cons]
+      by_cases h0 : h = 0
+      · rw [if_pos h0] at hp; simp at hp
+      · rw [if_neg h0] at hp ⊢
+        by_cases h1 : h = 1
+        · rw [if_pos h1] at hp ⊢
+          rcases hpt : parse true t with ⟨c, d0, i0, dn0, bd0⟩
+          rw [hpt] at hp
+          simp only [Prod.mk.injEq, List.length_cons, Nat.add_right_cancel_iff] at hp
+          obtain ⟨rfl, rfl, rfl, rfl, rfl⟩ := hp
+          rw [ih true d0 i0 b hpt]
+          simp only [List.length_cons, Prod.mk.injEq, and_true, true_and]
+          omega
+        · rw [if_neg h1] at hp; simp at hp
+
 end Toy
 
 end Sqfs.Xfrm
